@@ -78,6 +78,32 @@ fn script(n: usize) -> (bool, Vec<Step>, &'static str) {
             vec![("insert", Box::new(|p: &mut Pkg| p.insert_rows(Insert::into("Items").row(vec![Value::Int(1000), Value::from("late")]))))],
             "into_inner",
         ),
+        7 => (
+            false,
+            vec![
+                ("create_table", Box::new(|p: &mut Pkg| p.create_table("Notes", vec![Column::build("K").primary_key().int16(), Column::build("Text").nullable().string(0)]))),
+                ("insert_long_last", Box::new(|p: &mut Pkg| {
+                    // the last string of the pool is a text of several KiB (string data ending on / past block sizes)
+                    let rows: Vec<Vec<Value>> = vec![
+                        vec![Value::Int(1), Value::Str("short".into())],
+                        vec![Value::Int(2), Value::Str("x".repeat(4096 + 700))],
+                    ];
+                    p.insert_rows(Insert::into("Notes").rows(rows))
+                })),
+            ],
+            "flush",
+        ),
+        8 => (
+            false,
+            vec![
+                ("summary_only", Box::new(|p: &mut Pkg| {
+                    p.summary_info_mut().set_author("Jane Doe");
+                    p.summary_info_mut().set_comments("y".repeat(5000));
+                    Ok(())
+                })),
+            ],
+            "into_inner",
+        ),
         // tables whose serialised size lands on and around buffer sizes (4400 = just past 4 KiB
         // at the last column, 8192 = exactly the container's stream buffer, 512 = one sector)
         _ => (
@@ -102,7 +128,7 @@ fn script(n: usize) -> (bool, Vec<Step>, &'static str) {
     }
 }
 
-pub const NUM_SCRIPTS: usize = 7;
+pub const NUM_SCRIPTS: usize = 9;
 
 struct Outcome {
     calls: usize,
